@@ -90,8 +90,14 @@ func (t *Target) AccessDeniedTCP(c net.Conn) bool {
 }
 
 func (t *Target) denyByIP(ip net.IP) bool {
-	if ip == nil || len(t.accessRules) == 0 {
+	if len(t.accessRules) == 0 {
 		return false
+	}
+	if ip == nil {
+		// an address which could not be parsed is in no block:
+		// it cannot pass an allow list
+		_, ok := t.accessRules[ipAllowTag]
+		return ok
 	}
 	// check allow (whitelist) first if it exists
 	if _, ok := t.accessRules[ipAllowTag]; ok {
